@@ -14,6 +14,15 @@ RULES = ("trapezoid", "rectangle")
 
 def call_impl(case):
     from traffic_weaver.match import integral_matching_reference_stretch as f
+    if case.get("scribble") and case["mode"] == "search":
+        # history: the caller looked the fixed points up itself through the public search helper and then
+        # edited the index array it was handed (its own copy, as far as it can tell)
+        from traffic_weaver.sorted_array_utils import find_closest_element_indices_to_values as g
+        idx = g(np.array(case["x"], dtype=float), np.array(case["xr"], dtype=float), strategy=case["strategy"])
+        try:
+            idx[...] = 0
+        except Exception:
+            pass
     kw = dict(target_function_integral_method=case["tr"], reference_function_integral_method=case["rr"],
               alpha=case["alpha"])
     if case["mode"] == "search":
@@ -93,7 +102,12 @@ def check_match(case):
     for i, ((a, b), t) in enumerate(zip(zip(fidx[:-1], fidx[1:]), targets)):
         got = _span(x, zf, case["tr"], a, b)
         tot += got
-        if abs(float(got - t)) > tol:
+        # each interval is judged at ITS OWN scale (its target, the absolute integral of what was there before and
+        # after), so that a small interval next to a huge one is still matched to rounding
+        loc = max(abs(t), math.fsum(abs(y[j]) * (x[j + 1] - x[j]) for j in range(a, b)),
+                  math.fsum(abs(zf[j]) * (x[j + 1] - x[j]) for j in range(a, b)), 1e-300,
+                  case.get("local_floor", 0.0) * scale)
+        if abs(float(got - t)) > 1e-9 * loc:
             fails.append(fail("C01:interval-integral", {"interval": i, "samples": [a, b], "expected": float(t),
                                                         "observed": float(got), "fixed": fidx, "ref_idx": ridx}, key))
             break
@@ -240,12 +254,13 @@ def make_value_body(grids, alphas, prefix):
                     continue
                 xr = [x[i] + off for i in sub]
                 for yv in value_vectors(k, True):
-                    for yr in ([1] * r, list(range(r)), [(-2) ** i for i in range(r)]):
+                    for yr in ([1] * r, list(range(r)), [(-2) ** i for i in range(r)], [1e12] + [1e-6 * (i + 1) for i in range(r - 1)]):
                         n += 1
                         _judge(ctx, prefix=prefix, case={"x": x, "y": list(yv), "xr": xr, "yr": yr, "mode": "search", "strategy": "closest",
                                      "fixed": None, "tr": tr, "rr": rr, "alpha": al,
-                                     "y_dtype": ("float64", "int64", "int-list")[n % 3],
-                                     "y_scale": (1.0, 1.0, 1.0, 2.5e6, 1e-9)[n % 5]})
+                                     "y_dtype": ("float64", "int64", "int-list")[n % 3] if max(abs(v) for v in yr) < 1e6 else "float64",
+                                     "y_scale": (1.0, 1.0, 1.0, 2.5e6, 1e-9)[n % 5] if max(abs(v) for v in yr) < 1e6 else 1.0,
+                                     "scribble": n % 4 == 1})
         if k == 6 and al == 2 and off == 0.0:
             ctx.sample({"x": x, "rules": [tr, rr], "alpha": al, "fixed_subsets": "all with gaps >= 2", "cases": n})
     return body
@@ -274,7 +289,10 @@ def check_weaver_match(case):
     gx, gy = r.wv.get()
     rx, ry = r.wv.get_reference()
     c = {"kind": "match", "x": WO.fl(gx), "y": WO.fl(gy), "xr": WO.fl(rx), "yr": WO.fl(ry), "mode": "search", "strategy": "closest",
-         "fixed": None, "tr": case["tr"], "rr": "rectangle", "alpha": 1.0}
+         "fixed": None, "tr": case["tr"], "rr": "rectangle", "alpha": 1.0,
+         # the series reached through a history are themselves results of floating-point operations: an interval
+         # whose content is rounding residue of its neighbours is judged no finer than 1e-12 of the global scale
+         "local_floor": 1e-3}
     if selection(c)[0] != "ok":
         return [], ("filtered", "not-admissible")
     with warnings.catch_warnings():
